@@ -37,7 +37,8 @@ Proof.
 Qed.
 
 Lemma documented_v6_endpoint_accepted : forall h n, ipv6_ok h = true -> (1 <= n <= 65535)%N ->
-  validate_endpoint repaired (c_lbr :: h ++ c_rbr :: c_colon :: dec n) = true /  validate_endpoint_optional_port repaired (c_lbr :: h ++ c_rbr :: c_colon :: dec n) = true.
+  validate_endpoint repaired (c_lbr :: h ++ c_rbr :: c_colon :: dec n) = true /\
+  validate_endpoint_optional_port repaired (c_lbr :: h ++ c_rbr :: c_colon :: dec n) = true.
 Proof. intros h n Hh Hn. exact (doc_endpoint_v6_accepted _ (doc_v6_intro h n Hh Hn)). Qed.
 
 Lemma doc_endpoint_accepted : forall s, doc_endpoint s = true ->
